@@ -19,6 +19,7 @@ type c10Fault struct {
 	Seam  string `json:"seam"`
 	K     int    `json:"k"`
 	Short bool   `json:"short,omitempty"`
+	Dead  bool   `json:"dead,omitempty"` // the seam keeps failing from the k-th interaction on, until the call returns
 }
 
 type c10Params struct {
@@ -79,12 +80,17 @@ func c10Run(f failer, cfg world.Cfg, p c10Params, steps []hist.Step) {
 	for i, s := range steps {
 		for _, seam := range c10Seams() {
 			for k := 1; k <= counts[i][seam]; k++ {
-				shorts := []bool{false}
+				// modes: 0 = one fault, 1 = short write, 2 = the medium stays dead for the rest of the call
+				modes := []int{0}
 				if seam == world.SeamDriveWrite {
-					shorts = []bool{false, true}
+					modes = []int{0, 1}
 				}
-				for _, short := range shorts {
-					fp := c10Fault{Step: i, Seam: seam, K: k, Short: short}
+				if seam == world.SeamDriveRead && (k == 1 || k == counts[i][seam] || k == (counts[i][seam]+1)/2) {
+					modes = []int{0, 2}
+				}
+				for _, mode := range modes {
+					short := mode == 1
+					fp := c10Fault{Step: i, Seam: seam, K: k, Short: short, Dead: mode == 2}
 					if p.Only != nil && *p.Only != fp {
 						continue
 					}
@@ -101,7 +107,12 @@ func c10Run(f failer, cfg world.Cfg, p c10Params, steps []hist.Step) {
 					for j := 0; j < i; j++ {
 						c10Do(f, r, steps[j], fmt.Sprintf("%s: replaying the prefix, step %d %s", what, j, steps[j]))
 					}
-					pr.Arm(seam, k, short)
+					if fp.Dead {
+						pr.ArmPersistent(seam, k)
+						what += " and every later one until the call returns"
+					} else {
+						pr.Arm(seam, k, short)
+					}
 					res := c10Do(f, r, s, what+": the faulted call")
 					_, _, fired := pr.Snapshot()
 					pr.Disarm()
